@@ -889,6 +889,8 @@ class Exec:
             return self.arr_subscript(st, v, sl, e)
         if isinstance(v, StrV) and isinstance(sl, ast.Slice):
             return StrV("<slice of a string>")       # string content is opaque
+        if isinstance(v, OpaqueV):
+            return OpaqueV(v.name + "[...]")
         if isinstance(v, ModV) and "__getitem__" in v.attrs:
             return self.call(st, v.attrs["__getitem__"], [v, self.ev(sl, st)], {}, e)       # an external object whose model says what indexing it yields
         if isinstance(v, MaskedV):
@@ -1657,7 +1659,22 @@ class Exec:
         the matching handler; external calls are modelled by their non-raising contract, so a handler for their errors is unreachable here
         (reported under path-cover)."""
         if n.finalbody:
-            raise Undecided(f"try/finally at line {n.lineno}")
+            # try ... [except ...] finally: the finally block runs on every way out of the rest - normal completion, an exception that is not handled,
+            # a return - and the exit then continues as it was (an exception raised or a return made inside the finally block itself replaces it)
+            inner = ast.Try(body=n.body, handlers=n.handlers, orelse=n.orelse, finalbody=[]) if (n.handlers or n.orelse) else None
+            nret = len(self.returns)
+            outs = self.st_Try(inner, st) if inner is not None else self.run(n.body, st)
+            pending = self.returns[nret:]
+            del self.returns[nret:]
+            result = []
+            for o in outs:
+                if o.flag is not None:
+                    raise Undecided("break / continue out of a try with a finally block")
+                result += self.run(n.finalbody, o)
+            for rec in pending:
+                for o in self.run(n.finalbody, rec.st):
+                    self.returns.append(ReturnRec(o, rec.value, rec.exc, rec.line))
+            return result
         nret = len(self.returns)
         outs = self.run(n.body, st)
         new_recs = self.returns[nret:]
